@@ -82,7 +82,6 @@ Proof.
 Qed.
 
 (* ---------- completeness of the computable reference *)
-Definition sub_equiv (r mu : row) : Prop := forall k v, get r k = Some v -> exists w, get mu k = Some w /\ cell_equiv v w = true.
 
 Fixpoint nodup_keys (r : row) : Prop :=
   match r with
